@@ -137,7 +137,21 @@ var c10Named = []struct {
 	{"SELECT * FROM (SELECT * FROM (SELECT * FROM (SELECT * FROM t) a) b) c", false},
 }
 
+// inputs for the PostgresEscapingDialect rewriter (run with that option on)
+var c10NamedPostgres = []string{
+	"SELECT \"dir\\name\" FROM \"t\"",
+	"SELECT \"id\\\" FROM \"t\"",
+	"SELECT \"id FROM t",
+	"SELECT \"a\\\\b\", 'x\\'y' FROM \"t\"",
+	"SELECT \"\" FROM t",
+	"\"",
+	"\\",
+	"SELECT \"é\\é\" FROM t",
+}
+
 var c10Tokens = []string{"SELECT ", " FROM ", " WHERE ", " JOIN ", " ON ", " UNION ", " WITH ", " AS ", "(", ")", "[", "]", "{", "}", "`", "'", "\"", "<-", ".", ",", "*", "=", " NATURAL ", " PARALLEL ", " GROUP BY ", " ORDER BY ", " LIMIT ", "ASYNC.", "SPIN.", "ONCE.", "GLOBAL.", "SCOPED.", "AWAIT(", "NULL", "0", "-1", "99999999999", "\x00", "\xff", "%", ";", "--", "/*", "::", "=>", "each", "keep", "begin", "end", ":"}
+
+var c10DialectTokens = []string{"\"", "\"id\"", "\"dir\\name\"", "\\", "\\\"", "'", "'a\\'b'", "`", "`id`", "[", "]", "[0]", "t[0]", "n[1].v", "id", "a", " ", ", ", "\"t\"", " FROM ", " AS ", "\"a b\"", "é", "\"é\\x\"", "\"\"", "''", "(", ")", ".", "\"n\"[0]", "x\\"}
 
 var c10SelectorTokens = []string{"[", "]", "(", ")", ":", "each", "keep=>", "begin", "end", "first", "last", "0", "1", "-1", "99", "2:1", "{", "}", "|", "string", "number", "bogus",
 	"'", ".", "::", "=>", "distinct=>", "mix=>", "<-", "*", " ", "id", "v", "w", "n", "tags", "grid", ",", "[0]", "[(1:end)]", "[(begin:", "[each:0]", "{v|string}", "{v|bogus, w}", "[keep=>0:1]"}
@@ -251,7 +265,7 @@ func c10FollowUp(t *rapid.T) casefmt.Op {
 }
 
 func genC10(t *rapid.T) *Bundle {
-	kind := rapid.SampledFrom([]string{"fault", "fault", "fault", "pjoin", "mutated", "mutated", "bytes", "odd_doc", "options", "selector", "selector"}).Draw(t, "kind")
+	kind := rapid.SampledFrom([]string{"fault", "fault", "fault", "pjoin", "mutated", "mutated", "bytes", "odd_doc", "options", "selector", "selector", "dialect"}).Draw(t, "kind")
 	sim := drawSim(t, "")
 	exp := c10Expect{Kind: kind}
 	doc := c10Doc(t)
@@ -318,6 +332,19 @@ func genC10(t *rapid.T) *Bundle {
 			op.Query = strings.ReplaceAll(op.Query, "x.id", "x.id"+suffix)
 			op.Query = strings.ReplaceAll(op.Query, "y.id", "y.id"+suffix)
 		}
+	case "dialect":
+		// texts for the query-text rewriters (PostgresEscapingDialect, IdiomaticArrays): quotes, escapes, brackets
+		n := rapid.IntRange(1, 10).Draw(t, "ndtok")
+		var sb strings.Builder
+		for i := 0; i < n; i++ {
+			sb.WriteString(rapid.SampledFrom(c10DialectTokens).Draw(t, "dtok"))
+		}
+		op.Query = sb.String()
+		if rapid.Bool().Draw(t, "dialect_in_select") {
+			op.Query = "SELECT " + op.Query + " FROM t"
+		}
+		op.Postgres = rapid.IntRange(0, 3).Draw(t, "postgres") > 0
+		op.Idiomatic = rapid.Bool().Draw(t, "idiomatic")
 	case "selector":
 		// well-formed and malformed texts of the selector language, as a column and as a FROM path
 		n := rapid.IntRange(1, 7).Draw(t, "nseltok")
@@ -457,6 +484,11 @@ func corpusC10() []*Bundle {
 				casefmt.Op{Doc: 0, Vars: -1, Query: q, Idiomatic: nc.idiomatic, Wrapped: wrapped, ExecTwice: true}, c10FollowUp(nil))
 			out = append(out, &Bundle{Prop: "C10", Kind: "named", Case: c, Expect: mustJSON(c10Expect{Kind: "named", Query: q}), Tags: []string{"corpus", "kind:named"}})
 		}
+	}
+	for _, q := range c10NamedPostgres {
+		c := oneClientCase("C10", casefmt.SimConfig{Strategy: "np", Seed: 2, MapPolicy: "sorted", StepBudget: 2000000}, doc,
+			casefmt.Op{Doc: 0, Vars: -1, Query: q, Postgres: true}, c10FollowUp(nil))
+		out = append(out, &Bundle{Prop: "C10", Kind: "named", Case: c, Expect: mustJSON(c10Expect{Kind: "named", Query: q}), Tags: []string{"corpus", "kind:named_postgres"}})
 	}
 	// background work that fails or panics on some row, per strategy and placement
 	strategies := []string{"ASYNC", "SPIN", "SPINASYNC"}
